@@ -18,7 +18,7 @@ Decided (wiring of the RFC 8032 data flow, as canonical dataflow expressions ove
   sc32       32-bit backend: reduce_from_wide_bytes and muladd read consecutive 21-bit digits, are congruent to the input /
              a*b+c modulo L as polynomial identities (all carries cancel, every fold uses L's digits), keep every
              intermediate within i64 and end in reduced digits packed into consecutive output bits; clamp / sign rules on K2
-Not decided: group law, scalar64 Barrett arithmetic as numbers, SHA-512 compression."""
+Not decided: group law, scalar64 Barrett arithmetic as numbers."""
 import re
 
 from .. import mir, pred, rules, ssa, termbits
@@ -153,6 +153,10 @@ def run(ctx):
     from . import C01
     ctx.guard("padding", "sha512", lambda: C01.check_standard_padding(ctx, P))
     ctx.guard("length-field", "md", lambda: C01.check_length_fields(ctx, P))
+    from . import sha2eq
+    got4 = []
+    ctx.guard("compress-eq", "sha512", lambda: got4.append(sha2eq.check_other(ctx, {"K0": P}, only=("sha512",))))
+    ctx.check(got4 == [2], "floor", "compress-eq-sha512", "SHA-512's block function over 1 and 2 blocks equals FIPS 180-4 as a value graph", "only %s SHA-512 comparisons ran" % got4, key="floor:compress-eq-sha512")
     from . import C15, C12, sc32, febounds
     ctx.guard("scalar", "scalar64", lambda: C15.check_scalar64(ctx, P))
     # exchange() decodes the peer's public key with Fe::from_bytes (bit 255 = sign bit must be ignored), and the whole
@@ -165,4 +169,4 @@ def run(ctx):
     ctx.guard("clamp", "ed25519/K2", lambda: check_clamp(ctx, P2))
     ctx.guard("sign", "signature/K2", lambda: check_signature(ctx, P2, "ed25519::signature", "extended_secret(keypair_private(arg2))", "keypair_public(arg2)"))
     ctx.guard("sign", "signature_extended/K2", lambda: check_signature(ctx, P2, "ed25519::signature_extended", "arg2", "extended_to_public(arg2)"))
-    ctx.not_decided += ["group law and fixed-base multiplication values", "scalar64 Barrett reduction / multiply-add as numbers (the scalar32 digit arithmetic is decided: congruence modulo L, bounds, digit decode / encode)", "SHA-512 compression"]
+    ctx.not_decided += ["group law and fixed-base multiplication values", "scalar64 Barrett reduction / multiply-add as numbers (the scalar32 digit arithmetic is decided: congruence modulo L, bounds, digit decode / encode)", "fixed-base scalar multiplication digit arithmetic"]
